@@ -245,8 +245,8 @@ var ops = []opGen{
 			return Step{Op: "goit", Args: []string{"branch", "-d", g.E.Cur.HeadBr}, Note: "invalid"}
 		}
 		n := g.FreeBranch()
-		if n == "" {
-			n = "nosuch"
+		if n == "" || strings.Contains(n, "{{") {
+			n = "nosuch" // (a symbolic name may resolve to a branch that exists)
 		}
 		return Step{Op: "goit", Args: []string{"branch", "-d", n}, Note: "invalid"}
 	}},
@@ -268,7 +268,7 @@ var ops = []opGen{
 			return goit("switch", g.E.Cur.HeadBr)
 		}
 		n := g.FreeBranch()
-		if n == "" {
+		if n == "" || strings.Contains(n, "{{") {
 			n = "nosuch"
 		}
 		return Step{Op: "goit", Args: []string{"switch", n}, Note: "invalid"}
